@@ -380,7 +380,7 @@ def stream_templates():
     add("r.ip != r.nw", "!=", "R", "r.ip", wrap=False)               # total __eq__ on the left, missing on the right
     add("r.ip == r.k", "==", "R", "r.ip", wrap=False)
     add("r.u >= 'g'", ">=", "L", "'g'", wrap=False)
-    add("r.d.year == 2020 and r.f > 1", ">", "L", "1", wrap=False)
+    add("r.f > 1 and r.t != 'x'", ">", "L", "1", wrap=False)
     add("r.k > 1 or r.f > 1", ">", "L", "1", wrap=False)
     # derived operands: arithmetic on / attribute of the possibly missing field.  `needs`: the record must have these
     # fields, else the comparison is False (the reference evaluator does not model derived operands of a missing field)
